@@ -964,6 +964,8 @@ def cell_methods(marg, sd):
         ("binary", "binary", {}, (0, 0, E, E, E), True),
         ("binary-args", "binary", dict(divide=marg + 0.2 * sd, upper=marg + 1.0, lower=marg - 0.4), (0, 0, opt(marg + 0.2 * sd), opt(marg + 1.0), opt(marg - 0.4)), False),
         ("binary-zeros", "binary", dict(divide=z[0][1], upper=1.5, lower=z[3][1]), (0, 0, opt(0.0), opt(1.5), opt(0.0)), False),
+        ("binary-divide", "binary", dict(divide=marg + 0.3 * sd), (0, 0, opt(marg + 0.3 * sd), E, E), "raise"),
+        ("binary-divide-upper", "binary", dict(divide=marg - 0.2 * sd, upper=marg + 1.0), (0, 0, opt(marg - 0.2 * sd), opt(marg + 1.0), E), "raise"),
         ("discrete-arithmetic", "discrete", dict(values=vals, thresholds="arithmetic"), (1, 0, vals, E, E), False),
         ("discrete-equal", "discrete", dict(values=list(vals), thresholds="equal"), (1, 1, vals, E, E), True),
         ("discrete-given", "discrete", dict(values=list(vals), thresholds=thr), (1, 2, vals, thr, E), False),
@@ -1058,7 +1060,9 @@ def grid_cells(ctx, rng, drv):
                                                           process, keep_mean, stored.ravel())
                                         else:
                                             guarded = uses_mean
-                                            if not process:
+                                            if not process and uses_mean == "raise":
+                                                rm, expect_raise = None, True       # not guarded (divide given) but mean + sqrt(sill) with a callable mean: TypeError
+                                            elif not process:
                                                 rm = 1 if guarded else drv.call("wrapper", NAN, 0.0, sill, ("n", 0), 0.3, False, E, ("n", enc[0]), ("n", enc[1]),
                                                                                 enc[2], enc[3], enc[4], False, True, stored.ravel())
                                             elif keep_mean and uses_mean:
@@ -1645,6 +1649,128 @@ def object_semantics(ctx, rng):
                                     got=(list(got) if is_err(got) else hexl(got)), want=(list(ref) if is_err(ref) else hexl(ref))), key="object:%s" % vname)
 
 
+# --------------------------------------------------------------------------- round 6: documented default rules
+
+def default_rules(ctx, rng):
+    """every documented default of the wrappers and array functions against an independent formula: binary (divide = mean,
+    upper/lower = mean +- sqrt(sill), each given or defaulted independently of the others), discrete thresholds 'arithmetic' (default) /
+    'equal' with the field mean and the model SILL, uniform on [0, 1], arcsine / U-quadratic bounds mean -+ sqrt(2 sill) / sqrt(5/3 sill)
+    with a and b given or defaulted independently, zinnharvey conn = 'high', boxcox lmbda = 1 / shift = 0, force_moments to the field mean
+    and sill, and the flag defaults field='field', store=True, process=False, keep_mean=True"""
+    import gstools as gs
+    from gstools.transform import array as A
+    n = 400
+    for rep, (m, var, nug) in enumerate(((1.7, 0.8, 0.45), (-2.4, 2.0, 0.0), (0.9, 0.3, 1.1))):
+        sill = var + nug
+        sd = math.sqrt(sill)
+        x = rng.normal(m, sd, size=n)
+
+        def fresh():
+            f = gs.SRF(gs.Exponential(dim=1, var=var, nugget=nug, len_scale=3.0), mean=m)
+            f.set_pos([np.arange(n, dtype=float)], "unstructured")
+            f.post_field(x, name="field", process=False, save=True)
+            return f
+        fld = fresh()
+        for process, keep_mean in ((False, True), (True, True), (True, False)):
+            shift = m if (process and not keep_mean) else 0.0
+            marg = m - shift
+            pre = x - shift
+            z = (pre - marg) / sd
+            flags = dict(store=False, process=process, keep_mean=keep_mean)
+            checks = []          # (label, method, kwargs, expected array in the pre-processed space)
+            # binary: each of divide / upper / lower given or defaulted
+            for d in (None, marg + 0.7 * sd, marg - 1.3 * sd):
+                for u in (None, marg + 2.5):
+                    for lo in (None, marg - 4.0):
+                        kw = {k: v_ for k, v_ in (("divide", d), ("upper", u), ("lower", lo)) if v_ is not None}
+                        de = marg if d is None else d
+                        ue = marg + sd if u is None else u
+                        le = marg - sd if lo is None else lo
+                        checks.append(("binary(%s)" % ",".join(sorted(kw)) , "binary", kw, np.where(pre <= de, le, ue), 0.0))
+            vals = np.array([marg + 2.0, marg - 1.0, marg + 0.3, marg - 2.5])
+            vs = np.sort(vals)
+            mids = (vs[1:] + vs[:-1]) / 2
+            checks.append(("discrete default thresholds", "discrete", dict(values=vals), vs[np.searchsorted(mids, pre, side="left")], 0.0))
+            checks.append(("discrete arithmetic", "discrete", dict(values=vals, thresholds="arithmetic"), vs[np.searchsorted(mids, pre, side="left")], 0.0))
+            q = stats.norm.ppf(np.arange(1, 4) / 4, loc=marg, scale=sd)
+            near = np.min(np.abs(pre[:, None] - q[None, :]), axis=1) <= 1e-9 * (abs(marg) + sd)
+            checks.append(("discrete equal (field mean, model sill)", "discrete", dict(values=vals, thresholds="equal"), np.where(near, np.nan, vals[np.searchsorted(q, pre, side="left")]), 0.0))
+            u01 = special.ndtr(z)
+            checks.append(("uniform default [0, 1]", "normal_to_uniform", {}, u01, 1e-12))
+            checks.append(("uniform low only", "normal_to_uniform", dict(low=-2.0), u01 * 3.0 - 2.0, 1e-12))
+            checks.append(("uniform high only", "normal_to_uniform", dict(high=5.0), u01 * 5.0, 1e-12))
+            for name, fac, ppf in (("arcsin", 2.0, lambda uu, a, b: stats.arcsine.ppf(uu, loc=a, scale=b - a)), ("uquad", 5.0 / 3.0, None)):
+                for a in (None, marg - 3.0):
+                    for b in (None, marg + 4.5):
+                        ae = marg - math.sqrt(fac * sill) if a is None else a
+                        be = marg + math.sqrt(fac * sill) if b is None else b
+                        kw = {k: v_ for k, v_ in (("a", a), ("b", b)) if v_ is not None}
+                        if ppf is not None:
+                            checks.append(("%s(%s)" % (name, ",".join(sorted(kw))), "normal_to_" + name, kw, ppf(u01, ae, be), 1e-9 * (abs(ae) + abs(be))))
+                        else:
+                            checks.append(("%s(%s)" % (name, ",".join(sorted(kw))), "normal_to_" + name, kw, ("uquad-cdf", ae, be), 1e-9))
+            wlow = stats.norm.ppf(np.clip(2 * special.ndtr(np.abs(z)) - 1, 1e-300, 1)) * sd + marg
+            checks.append(("zinnharvey default conn = high", "zinnharvey", {}, 2 * marg - wlow, 1e-8 * (abs(marg) + sd * (1 + np.abs((wlow - marg) / sd)))))
+            checks.append(("zinnharvey low", "zinnharvey", dict(conn="low"), wlow, 1e-8 * (abs(marg) + sd * (1 + np.abs((wlow - marg) / sd)))))
+            checks.append(("boxcox defaults lmbda = 1, shift = 0", "boxcox", {}, np.maximum(pre + 1.0, 0.0), 1e-12 * (1 + np.abs(pre))))
+            checks.append(("boxcox lmbda only", "boxcox", dict(lmbda=0.5), np.maximum(0.5 * pre + 1.0, 0.0) ** 2, 1e-12 * (1 + pre * pre)))
+            checks.append(("boxcox shift only", "boxcox", dict(shift=2.0), np.maximum(pre + 3.0, 0.0), 1e-12 * (3 + np.abs(pre))))
+            checks.append(("lognormal", "normal_to_lognormal", {}, np.exp(pre), 1e-12 * np.exp(pre)))
+            for label, mname, kw, want, tol in checks:
+                got = impl_call(fld.transform, mname, **dict(kw, **flags))
+                ctx.count(("default", label, process, keep_mean, rep), hist=dict(default_rule=label.split("(")[0]))
+                if is_err(got):
+                    ok = False
+                elif isinstance(want, tuple):
+                    ok = bool((np.abs(cdf_uquad(got - shift, want[1], want[2]) - u01) <= 1e-9).all()) and bool((got - shift >= want[1]).all()) and bool((got - shift <= want[2]).all())
+                else:
+                    cmp_ = ~np.isnan(want)
+                    ok = bool((np.abs((got - shift) - want)[cmp_] <= np.broadcast_to(tol, want.shape)[cmp_] + 4 * EPS * (abs(shift) + np.abs(want[cmp_]))).all())
+                if not ok:
+                    report(ctx, "probe: documented defaults, %s" % label,
+                           "Field.transform('%s', %s, process=%s, keep_mean=%s) does not follow the documented defaults (field mean %.3g, sill %.3g)" % (
+                               mname, ", ".join("%s=%.4g" % (k, v_) if isinstance(v_, float) else "%s=..." % k for k, v_ in kw.items()) or "no options", process, keep_mean, m, sill),
+                           dict(method=mname, kwargs={k: (v_ if not isinstance(v_, np.ndarray) else hexl(v_)) for k, v_ in kw.items()}, process=process, keep_mean=keep_mean,
+                                mean=m, var=var, nugget=nug, field=hexl(x), got=(list(got) if is_err(got) else hexl(got)),
+                                expected=(hexl(want + shift) if not isinstance(want, tuple) else ["U-quadratic on", want[1] + shift, want[2] + shift])),
+                           key="default:%s" % label.split("(")[0])
+            # force moments: the field's mean and the model's sill
+            got = impl_call(fld.transform, "normal_force_moments", **flags)
+            ctx.count(("default", "force_moments", process, keep_mean, rep), hist=dict(default_rule="force_moments"))
+            if is_err(got) or abs(np.mean(got) - m) > 1e-10 * (abs(m) + sd) or abs(np.var(got) - sill) > 1e-10 * sill:
+                report(ctx, "probe: documented defaults, normal_force_moments", "normal_force_moments does not force the field mean and the model sill (variance + nugget)",
+                       dict(process=process, keep_mean=keep_mean, mean=m, var=var, nugget=nug, field=hexl(x), got=(list(got) if is_err(got) else [float(np.mean(got)), float(np.var(got))])),
+                       key="default:force_moments")
+        # flag defaults: field='field', store=True, process=False, keep_mean=True
+        for mname, kw in (("normal_to_uniform", {}), ("binary", dict(divide=m + 0.4)), ("zinnharvey", {}), ("normal_to_lognormal", {}), ("discrete", dict(values=[0.0, 1.0, 3.0]))):
+            f1, f2 = fresh(), fresh()
+            a1 = impl_call(f1.transform, mname, **kw)
+            a2 = impl_call(f2.transform, mname, field="field", store=True, process=False, keep_mean=True, **kw)
+            ctx.count(("default", "flags", mname, rep), hist=dict(default_rule="flags"))
+            if is_err(a1) or is_err(a2) or not C.bit_equal(a1, a2) or list(f1.field_names) != ["field"] or not C.bit_equal(f1["field"], a1):
+                report(ctx, "probe: documented defaults, flags of Field.transform('%s')" % mname,
+                       "Field.transform without flags is not transform(field='field', store=True, process=False, keep_mean=True)",
+                       dict(method=mname, kwargs=kw, mean=m, var=var, nugget=nug, field=hexl(x), names=list(f1.field_names)), key="default:flags")
+        # array-level defaults
+        xa = rng.normal(m, sd, size=60)
+        ma, va = float(np.mean(xa)), float(np.var(xa))
+        pairs = [("array_to_uniform()", A.array_to_uniform(xa), A.array_to_uniform(xa, ma, va, 0.0, 1.0)),
+                 ("array_to_arcsin()", A.array_to_arcsin(xa), A.array_to_arcsin(xa, ma, va, ma - math.sqrt(2 * va), ma + math.sqrt(2 * va))),
+                 ("array_to_uquad()", A.array_to_uquad(xa), A.array_to_uquad(xa, ma, va, ma - math.sqrt(5 / 3 * va), ma + math.sqrt(5 / 3 * va))),
+                 ("array_to_uquad(a)", A.array_to_uquad(xa, ma, va, a=ma - 3), A.array_to_uquad(xa, ma, va, ma - 3, ma + math.sqrt(5 / 3 * va))),
+                 ("array_to_arcsin(b)", A.array_to_arcsin(xa, ma, va, b=ma + 3), A.array_to_arcsin(xa, ma, va, ma - math.sqrt(2 * va), ma + 3)),
+                 ("array_zinnharvey()", A.array_zinnharvey(xa), A.array_zinnharvey(xa, "high", ma, va)),
+                 ("array_force_moments()", A.array_force_moments(xa), A.array_force_moments(xa, 0.0, 1.0)),
+                 ("array_boxcox()", A.array_boxcox(xa), A.array_boxcox(xa, 1.0, 0.0)),
+                 ("array_discrete()", A.array_discrete(xa, [2.0, -1.0, 0.5]), A.array_discrete(xa, [2.0, -1.0, 0.5], "arithmetic")),
+                 ("array_discrete(equal)", A.array_discrete(xa, [2.0, -1.0, 0.5], "equal"), A.array_discrete(xa, [2.0, -1.0, 0.5], "equal", ma, va))]
+        for label, a1, a2 in pairs:
+            ctx.count(("default", "array", label, rep), hist=dict(default_rule="array functions"))
+            if not close(a1, a2, rtol=1e-12, scale=1.0 + np.abs(a2)):
+                report(ctx, "probe: documented defaults, %s" % label, "%s with defaulted arguments differs from the call with the documented default values" % label,
+                       dict(call=label, field=hexl(xa), got=hexl(a1), want=hexl(a2)), key="default:array:%s" % label)
+
+
 # --------------------------------------------------------------------------- run
 
 def run(ctx):
@@ -1703,6 +1829,7 @@ def run(ctx):
         probe_store(ctx, C.Rng(ctx.seed, "C19/store"))
         input_classes(ctx, C.Rng(ctx.seed, "C19/classes"))
         object_semantics(ctx, C.Rng(ctx.seed, "C19/objects"))
+        default_rules(ctx, C.Rng(ctx.seed, "C19/defaults"))
         probe_partition(ctx, C.Rng(ctx.seed, "C19/partition"))
         probe_pointwise(ctx, C.Rng(ctx.seed, "C19/pointwise"))
         probe_ks(ctx, C.Rng(ctx.seed, "C19/ks"))
